@@ -262,7 +262,12 @@ class C01(core.Check):
             orig = root
             multi = False
         else:
+            # a parser object "reflects only its most recent input": every other document is parsed by a parser that has parsed another
+            # document (with a doctype) before, and its serialisation is re-parsed by a used parser as well
+            reuse = (len(case['toks']) % 2 == 1)
             p1 = A.AdvancedHTMLParser()
+            if reuse:
+                p1.parseStr('<!DOCTYPE html PUBLIC "earlier"><section id="earlier">earlier<br></section>')
             html0 = c02.render(case['toks'], case.get('doctype'))
             try:
                 p1.parseStr(html0)
@@ -281,6 +286,8 @@ class C01(core.Check):
         if 'None' in s1 and 'None' not in json.dumps(case):
             return 'the serialisation %r contains the word None' % s1
         p2 = A.AdvancedHTMLParser()
+        if case['kind'] != 'api' and reuse:
+            p2.parseStr('<!DOCTYPE html PUBLIC "other"><p>other</p><p>roots</p>')
         try:
             p2.parseStr(s1)
         except Exception as e:
